@@ -251,7 +251,12 @@ def get_input_data(world: World, sim: SimRunner) -> InputData:
             attrs_old,
         ),
         input_data,
-        sim.persistent_inputs,
+        # (Copy the dict levels so that adding event inputs below does
+        # not write into the persistent inputs.)
+        {
+            eid: {attr: dict(vals) for attr, vals in attrs.items()}
+            for eid, attrs in sim.persistent_inputs.items()
+        },
     )
     # Merge in pushed inputs from the timed input buffer
     input_data = sim.timed_input_buffer.get_input(input_data, sim.current_step.time)
